@@ -183,6 +183,36 @@ func snapshot(ctx context.Context, st *Stack, b *Base) string {
 // RunPermScenario executes the operations and reports for each whether it was carried out and whether
 // stored state changed.
 func RunPermScenario(ctx context.Context, sc *PermScenario, log *Log) error {
+	return runPermScenario(ctx, sc, log, "")
+}
+
+// RunPermScenarioOn runs the scenario against the in-process handlers (binary == "") or the real dirk binary.
+func RunPermScenarioOn(ctx context.Context, sc *PermScenario, log *Log, binary string) error {
+	return runPermScenario(ctx, sc, log, binary)
+}
+
+// permTarget is what the operations of a permission scenario are sent to: the in-process handlers or the real binary.
+type permTarget struct {
+	sig          func(client string) SignerAPI
+	list         func(ctx context.Context, client string, req *pb.ListAccountsRequest) (*pb.ListAccountsResponse, error)
+	acctLock     func(ctx context.Context, client string, req *pb.LockAccountRequest) (*pb.LockAccountResponse, error)
+	acctUnlock   func(ctx context.Context, client string, req *pb.UnlockAccountRequest) (*pb.UnlockAccountResponse, error)
+	generate     func(ctx context.Context, client string, req *pb.GenerateRequest) (*pb.GenerateResponse, error)
+	walletLock   func(ctx context.Context, client string, req *pb.LockWalletRequest) (*pb.LockWalletResponse, error)
+	walletUnlock func(ctx context.Context, client string, req *pb.UnlockWalletRequest) (*pb.UnlockWalletResponse, error)
+	signBoth     func(ctx context.Context, client, name string, pub []byte) (core.Result, []byte) // nil: not expressible on this target
+	pubOf        func(path string) []byte
+	snapshot     func() string
+	locks        func() map[string]bool
+	restart      func() error
+	passphrase   string
+}
+
+// runPermScenario: binary == "" runs against the in-process handlers, else against the real dirk binary at that path.
+func runPermScenario(ctx context.Context, sc *PermScenario, log *Log, binary string) error {
+	if binary != "" {
+		return runPermScenarioRemote(ctx, sc, log, binary)
+	}
 	ctl := NewControl(log)
 	needRestart := false
 	for _, op := range sc.Ops {
@@ -221,29 +251,68 @@ func RunPermScenario(ctx context.Context, sc *PermScenario, log *Log) error {
 		}
 		return a.PublicKey().Marshal()
 	}
+	tgt := &permTarget{passphrase: b.Spec.Passphrase}
+	tgt.sig = func(string) SignerAPI { return st.SignerH }
+	tgt.list = func(c context.Context, _ string, req *pb.ListAccountsRequest) (*pb.ListAccountsResponse, error) {
+		return st.ListerH.ListAccounts(c, roundTrip(req, &pb.ListAccountsRequest{}))
+	}
+	tgt.acctLock = func(c context.Context, _ string, req *pb.LockAccountRequest) (*pb.LockAccountResponse, error) {
+		return st.AcctH.Lock(c, roundTrip(req, &pb.LockAccountRequest{}))
+	}
+	tgt.acctUnlock = func(c context.Context, _ string, req *pb.UnlockAccountRequest) (*pb.UnlockAccountResponse, error) {
+		return st.AcctH.Unlock(c, roundTrip(req, &pb.UnlockAccountRequest{}))
+	}
+	tgt.generate = func(c context.Context, _ string, req *pb.GenerateRequest) (*pb.GenerateResponse, error) {
+		return st.AcctH.Generate(c, roundTrip(req, &pb.GenerateRequest{}))
+	}
+	tgt.walletLock = func(c context.Context, _ string, req *pb.LockWalletRequest) (*pb.LockWalletResponse, error) {
+		return st.WalletH.Lock(c, roundTrip(req, &pb.LockWalletRequest{}))
+	}
+	tgt.walletUnlock = func(c context.Context, _ string, req *pb.UnlockWalletRequest) (*pb.UnlockWalletResponse, error) {
+		return st.WalletH.Unlock(c, roundTrip(req, &pb.UnlockWalletRequest{}))
+	}
+	tgt.signBoth = func(c context.Context, client, name string, pub []byte) (core.Result, []byte) {
+		return st.Signer.SignGeneric(c, &checker.Credentials{Client: client}, name, pub, &rules.SignData{Domain: domainBytes("randao", 0x33), Data: rootBytes("A")})
+	}
+	tgt.pubOf = func(path string) []byte { return pubOf(path) }
+	tgt.snapshot = func() string { return snapshot(ctx, st, b) }
+	tgt.locks = func() map[string]bool { return lockState(ctx, b) }
+	tgt.restart = func() error {
+		// a new process image on the same wallet store and the same slashing database
+		_ = st.Close(ctx)
+		st.cancel()
+		if b, err = NewBase(ctx, sc.World, log, ctl); err != nil {
+			return fmt.Errorf("restart: %w", err)
+		}
+		if proc, err = NewSoloProcess(ctx, b); err != nil {
+			return fmt.Errorf("restart: %w", err)
+		}
+		if st, err = NewStack(ctx, b, dir, proc); err != nil {
+			return fmt.Errorf("restart: %w", err)
+		}
+		return nil
+	}
+	defer func() { _ = st.Close(ctx) }()
+	return runPermOps(ctx, sc, log, tgt)
+}
+
+// runPermOps executes the operations against a target and reports for each whether it was carried out.
+func runPermOps(ctx context.Context, sc *PermScenario, log *Log, tgt *permTarget) error {
+	pubOf := tgt.pubOf
 	log.Emit(Ev{"ev": "Begin", "sc": sc.ID})
 	passOr := func(p string) []byte {
 		if p != "" {
 			return []byte(p)
 		}
-		return []byte(b.Spec.Passphrase)
+		return []byte(tgt.passphrase)
 	}
 	for _, op := range sc.Ops {
 		if op.Kind == "restart" {
-			// a new process image on the same wallet store and the same slashing database
-			_ = st.Close(ctx)
-			st.cancel()
-			if b, err = NewBase(ctx, sc.World, log, ctl); err != nil {
-				return fmt.Errorf("restart: %w", err)
-			}
-			if proc, err = NewSoloProcess(ctx, b); err != nil {
-				return fmt.Errorf("restart: %w", err)
-			}
-			if st, err = NewStack(ctx, b, dir, proc); err != nil {
-				return fmt.Errorf("restart: %w", err)
+			if err := tgt.restart(); err != nil {
+				return err
 			}
 			log.Emit(Ev{"ev": "PermOp", "id": op.ID, "kind": "restart", "client": "", "wallet": "", "acct": "", "keyof": "", "served": true, "listed": []string{},
-				"servedfor": "", "changed": false, "detail": "", "pub": "", "locks": lockState(ctx, b)})
+				"servedfor": "", "changed": false, "detail": "", "pub": "", "locks": tgt.locks()})
 			continue
 		}
 		c := credsCtx(WithRid(ctx, op.ID), op.Client, "")
@@ -256,7 +325,7 @@ func RunPermScenario(ctx context.Context, sc *PermScenario, log *Log) error {
 		if op.NoName {
 			name = ""
 		}
-		before := snapshot(ctx, st, b)
+		before := tgt.snapshot()
 		served := false
 		servedFor := ""
 		detail := ""
@@ -281,12 +350,17 @@ func RunPermScenario(ctx context.Context, sc *PermScenario, log *Log) error {
 				var sigBytes []byte
 				if pub != nil && name != "" {
 					// Name AND public key: the wire message (a oneof) cannot carry both, the signer service's API can.
-					r2, sg := st.Signer.SignGeneric(c, &checker.Credentials{Client: op.Client}, name, pub, &rules.SignData{Domain: dom("randao"), Data: rootBytes("A")})
+					if tgt.signBoth == nil {
+						detail = "unsupported on this target"
+						emitted = true
+						return
+					}
+					r2, sg := tgt.signBoth(c, op.Client, name, pub)
 					served = r2 == core.ResultSucceeded && len(sg) > 0
 					sigBytes = sg
 					detail = fmt.Sprint("service:", r2)
 				} else {
-					res, err := st.SignerH.Sign(c, roundTrip(req, &pb.SignRequest{}))
+					res, err := tgt.sig(op.Client).Sign(c, roundTrip(req, &pb.SignRequest{}))
 					served = err == nil && res.GetState() == pb.ResponseState_SUCCEEDED && len(res.GetSignature()) > 0
 					detail = fmt.Sprint(res.GetState())
 					sigBytes = res.GetSignature()
@@ -310,7 +384,7 @@ func RunPermScenario(ctx context.Context, sc *PermScenario, log *Log) error {
 				if name != "" {
 					req.Id = &pb.SignBeaconAttestationRequest_Account{Account: name}
 				}
-				res, err := st.SignerH.SignBeaconAttestation(c, roundTrip(req, &pb.SignBeaconAttestationRequest{}))
+				res, err := tgt.sig(op.Client).SignBeaconAttestation(c, roundTrip(req, &pb.SignBeaconAttestationRequest{}))
 				served = err == nil && res.GetState() == pb.ResponseState_SUCCEEDED && len(res.GetSignature()) > 0
 				detail = fmt.Sprint(res.GetState())
 			case "prop":
@@ -322,11 +396,11 @@ func RunPermScenario(ctx context.Context, sc *PermScenario, log *Log) error {
 				if name != "" {
 					req.Id = &pb.SignBeaconProposalRequest_Account{Account: name}
 				}
-				res, err := st.SignerH.SignBeaconProposal(c, roundTrip(req, &pb.SignBeaconProposalRequest{}))
+				res, err := tgt.sig(op.Client).SignBeaconProposal(c, roundTrip(req, &pb.SignBeaconProposalRequest{}))
 				served = err == nil && res.GetState() == pb.ResponseState_SUCCEEDED && len(res.GetSignature()) > 0
 				detail = fmt.Sprint(res.GetState())
 			case "list":
-				res, err := st.ListerH.ListAccounts(c, roundTrip(&pb.ListAccountsRequest{Paths: []string{op.Wallet}}, &pb.ListAccountsRequest{}))
+				res, err := tgt.list(c, op.Client, &pb.ListAccountsRequest{Paths: []string{op.Wallet}})
 				if err == nil {
 					for _, a := range res.GetAccounts() {
 						if a.GetName() == path {
@@ -336,7 +410,7 @@ func RunPermScenario(ctx context.Context, sc *PermScenario, log *Log) error {
 					detail = fmt.Sprint(res.GetState(), len(res.GetAccounts()))
 				}
 			case "listpaths":
-				res, err := st.ListerH.ListAccounts(c, roundTrip(&pb.ListAccountsRequest{Paths: op.Paths}, &pb.ListAccountsRequest{}))
+				res, err := tgt.list(c, op.Client, &pb.ListAccountsRequest{Paths: op.Paths})
 				if err == nil {
 					keysok := true
 					for _, a := range res.GetAccounts() {
@@ -365,7 +439,7 @@ func RunPermScenario(ctx context.Context, sc *PermScenario, log *Log) error {
 						req.Requests = append(req.Requests, &pb.SignRequest{Id: &pb.SignRequest_Account{Account: pth}, Domain: dom("randao"), Data: rootBytes(fmt.Sprintf("M%d", j))})
 						roots2[j] = SigningRoot([32]byte(rootBytes(fmt.Sprintf("M%d", j))), dom("randao"))
 					}
-					if res, err := st.SignerH.Multisign(c, roundTrip(req, &pb.MultisignRequest{})); err == nil {
+					if res, err := tgt.sig(op.Client).Multisign(c, roundTrip(req, &pb.MultisignRequest{})); err == nil {
 						for j, rr := range res.GetResponses() {
 							if j < 2 {
 								states[j], sigsb[j] = rr.GetState(), rr.GetSignature()
@@ -380,7 +454,7 @@ func RunPermScenario(ctx context.Context, sc *PermScenario, log *Log) error {
 								Target: &pb.Checkpoint{Epoch: op.Epoch + 1, Root: rootBytes("t")}}})
 						roots2[j] = SigningRoot(AttRoot(1, 1, rootBytes("A"), op.Epoch, rootBytes("s"), op.Epoch+1, rootBytes("t")), dom("att"))
 					}
-					if res, err := st.SignerH.SignBeaconAttestations(c, roundTrip(req, &pb.SignBeaconAttestationsRequest{})); err == nil {
+					if res, err := tgt.sig(op.Client).SignBeaconAttestations(c, roundTrip(req, &pb.SignBeaconAttestationsRequest{})); err == nil {
 						for j, rr := range res.GetResponses() {
 							if j < 2 {
 								states[j], sigsb[j] = rr.GetState(), rr.GetSignature()
@@ -401,28 +475,28 @@ func RunPermScenario(ctx context.Context, sc *PermScenario, log *Log) error {
 						}
 					}
 					log.Emit(Ev{"ev": "PermOp", "id": fmt.Sprintf("%s.%d", op.ID, j), "kind": map[string]string{"multi2": "gen", "atts2": "att"}[op.Kind], "client": op.Client, "wallet": w2, "acct": a2,
-						"keyof": "", "served": srv, "listed": listed, "servedfor": "", "changed": false, "detail": states[j].String(), "pub": "", "locks": lockState(ctx, b)})
+						"keyof": "", "served": srv, "listed": listed, "servedfor": "", "changed": false, "detail": states[j].String(), "pub": "", "locks": tgt.locks()})
 				}
 				emitted = true
 				return
 			case "lockacct":
-				res, err := st.AcctH.Lock(c, roundTrip(&pb.LockAccountRequest{Account: path}, &pb.LockAccountRequest{}))
+				res, err := tgt.acctLock(c, op.Client, &pb.LockAccountRequest{Account: path})
 				served = err == nil && res.GetState() == pb.ResponseState_SUCCEEDED
 				detail = fmt.Sprint(res.GetState())
 			case "unlockacct":
-				res, err := st.AcctH.Unlock(c, roundTrip(&pb.UnlockAccountRequest{Account: path, Passphrase: passOr(op.Pass)}, &pb.UnlockAccountRequest{}))
+				res, err := tgt.acctUnlock(c, op.Client, &pb.UnlockAccountRequest{Account: path, Passphrase: passOr(op.Pass)})
 				served = err == nil && res.GetState() == pb.ResponseState_SUCCEEDED
 				detail = fmt.Sprint(res.GetState())
 			case "create":
-				res, err := st.AcctH.Generate(c, roundTrip(&pb.GenerateRequest{Account: path, Passphrase: passOr(op.Pass), Participants: 1, SigningThreshold: 1}, &pb.GenerateRequest{}))
+				res, err := tgt.generate(c, op.Client, &pb.GenerateRequest{Account: path, Passphrase: passOr(op.Pass), Participants: 1, SigningThreshold: 1})
 				served = err == nil && res.GetState() == pb.ResponseState_SUCCEEDED
 				detail = fmt.Sprint(res.GetState(), " ", res.GetMessage())
 			case "lockwallet":
-				res, err := st.WalletH.Lock(c, roundTrip(&pb.LockWalletRequest{Wallet: wraw(op)}, &pb.LockWalletRequest{}))
+				res, err := tgt.walletLock(c, op.Client, &pb.LockWalletRequest{Wallet: wraw(op)})
 				served = err == nil && res.GetState() == pb.ResponseState_SUCCEEDED
 				detail = fmt.Sprint(res.GetState())
 			case "unlockwallet":
-				res, err := st.WalletH.Unlock(c, roundTrip(&pb.UnlockWalletRequest{Wallet: wraw(op), Passphrase: passOr(op.Pass)}, &pb.UnlockWalletRequest{}))
+				res, err := tgt.walletUnlock(c, op.Client, &pb.UnlockWalletRequest{Wallet: wraw(op), Passphrase: passOr(op.Pass)})
 				served = err == nil && res.GetState() == pb.ResponseState_SUCCEEDED
 				detail = fmt.Sprint(res.GetState())
 			}
@@ -430,11 +504,10 @@ func RunPermScenario(ctx context.Context, sc *PermScenario, log *Log) error {
 		if emitted {
 			continue
 		}
-		after := snapshot(ctx, st, b)
+		after := tgt.snapshot()
 		log.Emit(Ev{"ev": "PermOp", "id": op.ID, "kind": op.Kind, "client": op.Client, "wallet": op.Wallet, "acct": op.Acct, "keyof": op.KeyOf,
-			"served": served, "listed": listed, "servedfor": servedFor, "changed": before != after, "detail": detail, "pub": hex.EncodeToString(pub), "locks": lockState(ctx, b)})
+			"served": served, "listed": listed, "servedfor": servedFor, "changed": before != after, "detail": detail, "pub": hex.EncodeToString(pub), "locks": tgt.locks()})
 	}
 	log.Emit(Ev{"ev": "End", "sc": sc.ID})
-	_ = st.Close(ctx)
 	return nil
 }
